@@ -844,6 +844,8 @@ class Block(object):
             raise PyrtlInternalError('error, upper bits of select output undefined')
         if net.op == 'm' and net.dests[0].bitwidth != net.op_param[1].bitwidth:
             raise PyrtlInternalError('error, mem read dest bitwidth mismatch')
+        if net.op in 'm@' and net.op_param[0] != net.op_param[1].id:
+            raise PyrtlInternalError('error, mem op memid does not match its memory')
 
 
 class PostSynthBlock(Block):
